@@ -103,6 +103,11 @@ def write_overlay():
     for p in walk(zz, (".go",)):
         rel = os.path.relpath(p, zz)
         repl[os.path.join(REPO, "internal", "zzverif", rel)] = p
+    gen = os.path.join(WORK, "gen")
+    if os.path.isdir(gen):
+        for p in walk(gen, (".go",)):
+            rel = os.path.relpath(p, gen)
+            repl[os.path.join(REPO, "internal", "zzverif", rel)] = p
     hk = os.path.join(HARNESS, "hook")
     for p in walk(hk, (".go",)):
         rel = os.path.relpath(p, hk)
@@ -135,6 +140,8 @@ def go_build(pkg, out, tags="verif", overlay=True, race=False, extra=None):
 
 def build_driver():
     """Build the correspondence driver from the current working tree."""
+    import registry
+    registry.generate()
     out = os.path.join(BIN, "zzverif")
     rc, msg, dt = go_build("./internal/zzverif", out)
     return rc, msg, out
